@@ -722,6 +722,11 @@ func (e *Exec) VerifyFunction(sp *FnSpec, prop string) (err error) {
 			e.obligeNamed(o.st, fmt.Sprintf("%s#ensures.%s", e.curFn, strings.Join(c.Labels, ",")), "ensures", c.Labels, sp.Pos, t)
 		}
 	}
+	if len(outs) == 0 && (sp.Lemma || len(sp.Ensures) > 0) {
+		// no path reaches a return (every path was cut by an unrolling bound, died, or panicked): a lemma or a
+		// postcondition over zero outcomes would hold vacuously
+		e.obligeNamed(st, e.curFn+"#no-outcome", "vacuity", nil, sp.Pos, False)
+	}
 	if sp.Pure && len(outs) > 0 {
 		// a pure function may only read the heap components it declares (its callers treat it as a function of those)
 		bad := map[string]bool{}
